@@ -507,9 +507,26 @@ def inst_arg_nd(chunks, which, two_level=False):
                     unit="arg_chunk/_arg_combine/arg_combine/arg_agg", cost=2 ** int(np.prod(shape)))
 
 
+def _program_body(E, w, prog):
+    """the public sum with a slice pushed through it (kept and dropped reduced axes): same elements as slicing the full result"""
+    from . import catalog
+
+    for stage in ("materialized", "materialized_off"):
+        m = catalog.stages(E, w, prog.node, {stage})[stage]
+        whole, dsk, r = catalog.run_tree(E, m, prog.node.chunks, stage, check_shapes=True)
+        same_array(E, whole, prog.ref, label=f"{stage}-values", skolem=f"p{stage[-1]}")
+
+
+def _program_instances(tier):
+    from . import catalog
+
+    return catalog.make_instances(tier, "C18", _program_body, "Reduction._accept_slice + lowering + PartialReduce kernels",
+                                  select=lambda name: name.startswith("sum("))
+
+
 def instances(tier):
     q = tier == "quick"
-    out = []
+    out = _program_instances(tier)
     nblocks = list(range(1, 10)) if q else list(range(1, 17))
     ses = [2, 3, 4, 5] if q else [2, 3, 4, 5, 8, 16]
     for m in nblocks:
@@ -546,6 +563,10 @@ def instances(tier):
     out.append(inst_tree_structure((2, 8), (0, 1), {0: 4, 1: 2}))
     out.append(inst_tree_structure((2, 8), (0, 1), {0: 2, 1: 4}))
     out.append(inst_tree_structure((3, 3), (0, 1), 4, keepdims=False))
+    # unequal fan-ins: the axis with the most blocks finishes in one level, the other needs two (depth is the maximum)
+    out.append(inst_tree_structure((5, 4), (0, 1), {0: 8, 1: 2}))
+    out.append(inst_tree_structure((5, 4), (0, 1), {0: 8, 1: 2}, keepdims=False))
+    out.append(inst_tree_structure((3, 5), (0, 1), {0: 2, 1: 8}, keepdims=False))
     out.append(inst_tree_structure((4, 2, 3), (0, 2), {0: 2, 2: 2}))
     out.append(inst_arg_nd(((2,), (1, 1)), "argmin"))
     # one block holds a slice that is NaN throughout (the fallback inside _nanarg*) next to a slice with a NaN before its extremum
